@@ -15,6 +15,18 @@ structure DSess where
       built, so every Put fires its listeners and then fails, and nothing is ever written -/
   refuse : Bool := false
 
+/-- Reference for one Put's callbacks, as a queue: take the first, note it, let what it registers join the
+    end of the queue, keep it unless it is once-only. (The code's index loop with in-place removal must agree.) -/
+def specFire : Nat → List PutCb → List PutCb × List Nat
+  | 0, q => (q, [])
+  | _ + 1, [] => ([], [])
+  | fuel + 1, cb :: rest =>
+    let rest' := match cb.spawn with
+      | some (id2, once2) => rest ++ [{ id := id2, once := once2 }]
+      | none => rest
+    let r := specFire fuel rest'
+    ((if cb.once then r.1 else cb :: r.1), cb.id :: r.2)
+
 def natsDot (l : List Nat) : String := if l.isEmpty then "-" else String.intercalate "." (l.map toString)
 
 def dOutStr (out : Option Bytes) : String :=
@@ -36,7 +48,10 @@ def specOut (se : DSess) : Option Bytes :=
 def famDOp (se : DSess) (fam : String) (kv : KV) : DSess × String × String :=
   let c := (parseCid (KV.getD kv "c" "")).getD default
   let op : DOp :=
-    if fam == "donput" then .onPut (KV.nat kv "id") (KV.bool kv "once")
+    if fam == "donput" then
+      let sp : Option (Nat × Bool) :=
+        if KV.getD kv "spawn" "-" == "-" then none else some (KV.nat kv "spawn", KV.bool kv "sonce")
+      .onPut (KV.nat kv "id") (KV.bool kv "once") sp
     else if fam == "dhas" then .has c
     else if fam == "dput" then .put c (KV.bytes kv "d")
     else .close
@@ -44,7 +59,7 @@ def famDOp (se : DSess) (fam : String) (kv : KV) : DSess × String × String :=
     match op with
     | .put _ _ =>
       if se.m.closed then (se, "r=closed fired=- exists=0 out=-", "r=closed fired=- exists=0 out=-") else
-      let (cbs', fired) := fireLoop (se.m.cbs.length + 1) 0 se.m.cbs []
+      let (cbs', fired) := fireLoop (2 * se.m.cbs.length + 2) 0 se.m.cbs []
       let str := s!"r=other fired={natsDot fired} exists=0 out=-"
       ({ se with m := { se.m with cbs := cbs' } }, str, str)
     | _ =>
@@ -56,8 +71,8 @@ def famDOp (se : DSess) (fam : String) (kv : KV) : DSess × String × String :=
   let mstr := s!"r={outStr false r.2.res} fired={natsDot r.2.fired} {dOutStr r.1.output}"
   -- specification
   match op with
-  | .onPut id once =>
-    let se' := { se with m := r.1, scbs := se.scbs ++ [⟨id, once⟩] }
+  | .onPut id once sp =>
+    let se' := { se with m := r.1, scbs := se.scbs ++ [{ id := id, once := once, spawn := sp }] }
     (se', mstr, s!"r=ok fired=- {dOutStr (specOut se')}")
   | .has c =>
     let res := if se.sclosed then "closed" else match se.s with
@@ -69,8 +84,9 @@ def famDOp (se : DSess) (fam : String) (kv : KV) : DSess × String × String :=
     else
       let st := se.s.getD { api := .storage, roots := se.roots.getD [] }
       let rs := Spec.step se.o st (.put c d)
-      let se' := { se with m := r.1, s := some rs.1, scbs := se.scbs.filter (fun cb => !cb.once) }
-      (se', mstr, s!"r={outStr false rs.2} fired={natsDot (se.scbs.map (·.id))} {dOutStr (specOut se')}")
+      let (keep, firedS) := specFire (2 * se.scbs.length + 2) se.scbs
+      let se' := { se with m := r.1, s := some rs.1, scbs := keep }
+      (se', mstr, s!"r={outStr false rs.2} fired={natsDot firedS} {dOutStr (specOut se')}")
   | .close =>
     if se.sclosed then ({ se with m := r.1 }, mstr, s!"r=closed fired=- {dOutStr (specOut se)}")
     else
